@@ -347,7 +347,7 @@ static void caseC11fa(vh::Rng& g)
 struct Observation
 {
 	std::vector<int> verdicts; bool emptyA = false; size_t unreachS = 0, unreachR = 0, uselessS = 0, uselessR = 0, reduceS = 0, reduceR = 0;
-	RTA unreach, useless, reduce, uni, isect, compl_;
+	RTA unreach, useless, reduce, uni, isect, compl_; std::string loadedDump;
 	bool scalarEq(const Observation& o) const { return verdicts == o.verdicts && emptyA == o.emptyA && unreachS == o.unreachS && unreachR == o.unreachR && uselessS == o.uselessS && uselessR == o.uselessR && reduceS == o.reduceS && reduceR == o.reduceR; }
 };
 
@@ -377,6 +377,10 @@ static Observation observeOps(const Aut& A, const Aut& B, CaseAlphabet& ca, bool
 	o.reduce = readExpl(A.Reduce(), &ca); o.reduceS = o.reduce.states().size(); o.reduceR = o.reduce.rules.size();
 	o.uni = readExpl(Aut::Union(A, B), &ca); o.isect = readExpl(Aut::Intersection(A, B), &ca);
 	if (withCompl) o.compl_ = readExpl(A.Complement(), &ca);
+	{	// what the loader makes of A's text, under the names of the text (also exercises the parser's number conversions)
+		Alpha al; al.rank.assign(ca.num.size(), -1); RTA ra = readExpl(A, &ca); bool ok = true; for (auto& r : ra.rules) { if (r.sym < 0 || r.sym >= static_cast<int>(al.rank.size())) { ok = false; break; } al.rank[r.sym] = static_cast<int>(r.ch.size()); }
+		if (ok) { Aut z; AutBase::StateDict sd; z.LoadFromString(parser(), rm::toTimbuk(ra, al), sd); o.loadedDump = z.DumpToString(serializer(), sd); }
+	}
 	return o;
 }
 
@@ -397,6 +401,21 @@ static void noise(vh::Rng& g)
 		else if (k == 3) { Aut r = a->Reduce(); (void)r; }
 		else if (k == 4 && !junk.empty()) { junk.erase(junk.begin() + g.below(junk.size())); }
 		if (junk.size() < 12) junk.push_back(std::move(a));
+		// calls that FAIL are activity too (whatever a rejected input or a refused argument leaves behind in process-wide
+		// tables, streams, translators), and so is work in the other encodings (process-wide MTBDD store, alphabets)
+		int f = static_cast<int>(g.below(12));
+		try
+		{
+			if (f == 0) { std::string t = rm::toTimbuk(x, al); static const char* bad[] = {"Ops s0:zero s1:1\n", "Ops s0: s1:\n", "Ops s0:99999999999999999999\n", "Ops\nAutomaton\n", "Ops s0:0\nAutomaton A\nStates q0:x\nFinal States q0:\nTransitions\ns0 -> \n"};
+				size_t eol = t.find('\n'); t = std::string(bad[g.below(5)]) + t.substr(eol + 1); R->count("noise:malformed-load"); Aut z; z.LoadFromString(parser(), t); }
+			else if (f == 1) { std::string t = rm::toTimbuk(x, al); t.resize(g.below(t.size() + 1)); R->count("noise:truncated-load"); Aut z; z.LoadFromString(parser(), t); ExplicitFiniteAut w; w.LoadFromString(parser(), t); }
+			else if (f == 2 && !junk.empty()) { R->count("noise:collapse-with-partial-map"); Aut::StateToStateMap m; Aut c = junk[g.below(junk.size())]->CollapseStates(m); (void)c; }
+			else if (f == 3) { RFA w = gen::randLiveFA(g, 5, 8, 2), v = gen::randLiveFA(g, 4, 6, 2); ExplicitFiniteAut p = loadText<ExplicitFiniteAut>(faToTimbuk(w, 2)), q = loadText<ExplicitFiniteAut>(faToTimbuk(v, 2));
+				R->count("noise:nfa-activity"); ExplicitFiniteAut u = ExplicitFiniteAut::Union(p, q), r = p.Reverse(); InclParam ip; ip.SetAlgorithm(InclParam::e_algorithm::antichains); (void)ExplicitFiniteAut::CheckInclusion(p, q, ip); }
+			else if (f == 4) { Alpha b2; b2.rank = {0, 0, 1, 2}; RTA y = gen::randProductiveTA(g, b2, gen::numbering(g, g.range(1, 4), 0), g.range(1, 6));
+				R->count("noise:bdd-activity"); BDDBottomUpTreeAut p = loadText<BDDBottomUpTreeAut>(rm::toTimbuk(y, b2)); BDDTopDownTreeAut q = p.GetTopDownAut(); BDDBottomUpTreeAut r = p.RemoveUselessStates(); (void)q; (void)r; }
+		}
+		catch (std::exception&) { R->count("noise:call-failed-with-exception"); }
 	}
 }
 
@@ -420,6 +439,7 @@ static void caseC11det(vh::Rng& g)
 		R->count("determinism-cases");
 		auto cmp = [&](const Observation& x, const Observation& y, const char* what) {
 			if (x.verdicts != y.verdicts) { R->violation(std::string("C11/determinism/") + what + "/inclusion-verdict", "verdict vector differs after unrelated activity"); return; }
+			if (x.loadedDump != y.loadedDump) { R->violation(std::string("C11/determinism/") + what + "/load-dump", "what loading the operand's text and dumping it gives differs after unrelated activity"); return; }
 			if (!x.scalarEq(y)) { R->violation(std::string("C11/determinism/") + what + "/emptiness-or-size", "emptiness verdict or trimming/reduction size differs after unrelated activity"); return; }
 			const RTA* xs[] = {&x.unreach, &x.useless, &x.reduce, &x.uni, &x.isect, &x.compl_}; const RTA* ys[] = {&y.unreach, &y.useless, &y.reduce, &y.uni, &y.isect, &y.compl_};
 			static const char* nm[] = {"unreach", "useless", "reduce", "union", "isect", "complement"};
